@@ -52,6 +52,54 @@ func GenDaemon(prop string, seed uint64, tier string) *DaemonScenario {
 	switch prop {
 	case "C13":
 		return genCrash(seed, tier)
+	case "C10":
+		sc.Extra = 1 // the follower: a daemon that is not a member
+		sc.N = r.Range(3, 4)
+		sc.T = r.Range(sc.N/2+1, sc.N-1)
+		sc.Backend = "bolt"
+		rounds = r.Range(10, 16)
+		faultEnd = g0 + int64(rounds)*periodMs
+		use["stop"], use["partition"], use["loss"] = false, r.Bool(30), r.Bool(40)
+		syncLies := []string{"bad_sig", "wrong_round", "relabel", "foreign_id", "garbage", "resend_forged", "resend_forged", "stall", "close_early"}
+		infoLies := []string{"info_period", "info_genesis", "info_key"}
+		fp := &FollowPlan{AtMs: g0 + int64(r.Range(3, rounds/2))*periodMs + int64(r.Intn(int(periodMs))), Node: sc.N, WrongHash: r.Bool(12)}
+		if r.Bool(50) {
+			fp.UpTo = uint64(r.Range(2, rounds))
+		}
+		for _, p := range r.Perm(sc.N)[:r.Range(1, sc.N)] {
+			fp.Peers = append(fp.Peers, p)
+		}
+		for k := r.Intn(3); k > 0; k-- {
+			l := syncLies[r.Intn(len(syncLies))]
+			dup := false
+			for _, x := range fp.Liars {
+				dup = dup || x == l
+			}
+			if !dup {
+				fp.Liars = append(fp.Liars, l)
+			}
+		}
+		if r.Bool(25) {
+			fp.Liars = append(fp.Liars, infoLies[r.Intn(len(infoLies))])
+		}
+		fp.Order = r.Perm(len(fp.Peers) + len(fp.Liars))
+		if n := len(fp.Liars); n > 0 && len(fp.Liars[n-1]) > 5 && fp.Liars[n-1][:5] == "info_" {
+			// is the chain-info liar the last peer asked?
+			fp.InfoLiarLast = fp.Order[len(fp.Order)-1] == len(fp.Peers)+n-1
+		}
+		sc.Follow = fp
+		if r.Bool(50) {
+			cp := &CheckPlan{AtMs: g0 + int64(r.Range(rounds-3, rounds))*periodMs, Node: r.Intn(sc.N), Corrupt: r.Range(1, 4)}
+			for i := 0; i < sc.N; i++ {
+				if i != cp.Node {
+					cp.Peers = append(cp.Peers, i)
+				}
+			}
+			if r.Bool(40) {
+				cp.Liars = []string{syncLies[r.Intn(6)]}
+			}
+			sc.Check = cp
+		}
 	case "C14", "C15":
 		sc.Mode = "fuzz"
 		sc.N = r.Range(3, 4)
